@@ -1,5 +1,78 @@
 import XsVerif.Driver.Util
-open Lean XsVerif.Driver
+import XsVerif.Model.Defuse
+open Lean XsVerif.Driver XsVerif.Defuse
 
--- stub: replaced when the model of C13 lands
-def main : IO Unit := XsVerif.Driver.run fun _ => .error "C13 driver not implemented"
+namespace XsVerif.Driver.C13
+
+def parseMode (s : String) : Except String Mode :=
+  match s with
+  | "never" => pure .never | "remote" => pure .remote | "nonlocal" => pure .nonlocal
+  | "always" => pure .always | _ => throw "mode"
+
+def parseBase (s : String) : Except String BaseClass :=
+  match s with
+  | "absent" => pure .absent | "local" => pure .loc | "remote" => pure .remote
+  | "neither" => pure .neither | _ => throw "base"
+
+def parseIo (s : String) : Except String IoKind :=
+  match s with
+  | "raw" => pure .raw | "buffered" => pure .buffered | "other" => pure .other | _ => throw "io"
+
+def planStr : Plan → String
+  | .noDefuse => "no-defuse" | .rewind => "rewind" | .wrapRaw => "wrap-raw"
+  | .wrapBuffered => "wrap-buffered" | .secondOpen => "second-open" | .refuse => "refuse"
+
+def outcomeStr : Outcome → String
+  | .parsed => "parsed" | .forbidden => "forbidden" | .oserror => "oserror"
+
+/-- the synthetic stream both sides use: byte i = (7 i + 3) mod 251 -/
+def synth (n : Nat) : List Nat := (List.range n).map fun i => (7 * i + 3) % 251
+
+/-- canonical digest of a chunk: length, sum mod 65521, first and last byte -/
+def digest (d : List Nat) : Json :=
+  let sum : Nat := d.foldl (fun (a x : Nat) => (a + x) % 65521) 0
+  let first : Nat := d.head?.getD 0
+  let last : Nat := d.getLast?.getD 0
+  Json.arr #[toJson d.length, toJson sum, toJson first, toJson last]
+
+def parseOp (j : Json) : Except String Op := do
+  let a ← j.getArr?
+  match a[0]? with
+  | some (.str "read") =>
+    match a[1]? with
+    | some .null => pure (.read none)
+    | some v => do pure (.read (some (← v.getNat?)))
+    | none => pure (.read none)
+  | some (.str "seek") =>
+    match a[1]? with
+    | some v => do pure (.seek (← v.getNat?))
+    | none => throw "seek"
+  | some (.str "tell") => pure .tell
+  | _ => throw "op"
+
+def outJson : Out → Json
+  | .data d => Json.mkObj [("d", digest d)]
+  | .at p => Json.mkObj [("at", p)]
+  | .oserror => Json.str "oserror"
+
+def handle (j : Json) : Except String Json := do
+  let op ← getStr j "op"
+  match op with
+  | "plan" =>
+    let m ← parseMode (← getStr j "mode")
+    let b ← parseBase (← getStr j "base")
+    let ch : Chan := { seekable := ← getBool j "seekable", io := ← parseIo (← getStr j "io"),
+                       hasOpener := ← getBool j "opener", hasUrl := ← getBool j "url" }
+    let pl := plan m b ch
+    return Json.mkObj [("defused", isDefused m b), ("plan", planStr pl),
+      ("outcome", outcomeStr (outcome pl (← getBool j "must_refuse") (← getNat j "scan_end") (← getNat j "buf_len")))]
+  | "reader" =>
+    let s := synth (← getNat j "len")
+    let ops ← (← getArr j "ops").toList.mapM parseOp
+    let r := Reader.init (← getNat j "size") s
+    return Json.mkObj [("buf", r.buf.length), ("outs", Json.arr ((r.run ops).map outJson).toArray)]
+  | _ => throw s!"unknown op {op}"
+
+end XsVerif.Driver.C13
+
+def main : IO Unit := XsVerif.Driver.run XsVerif.Driver.C13.handle
